@@ -25,6 +25,7 @@ Definition r_skip (r : residue) : bool :=
 Inductive hvariant := h_cur | h_fix.
 
 Section Frame.
+  Variable K : consts.            (* numeric constants *)
   Variable G : Z.                 (* grid units per nm *)
   Variable xyz : list vec.        (* atom coordinates of this frame, grid units *)
   Variable oob : vec.             (* what xyz[3*(-1) ..] reads *)
@@ -55,7 +56,7 @@ Section Frame.
           let l := Z.sqrt (norm2 co * SC * SC) in                       (* |C-O| in fixed point *)
           if l =? 0 then None
           else
-            let s := fst ks_nh_length * G * SC * SC / (snd ks_nh_length * l) in   (* 0.1 nm / |C-O| *)
+            let s := fst (c_ks_nh K) * G * SC * SC / (snd (c_ks_nh K) * l) in   (* 0.1 nm / |C-O| *)
             match to_fx (at_idx (r_n r)), co with
             | (nx, ny, nz), (cx, cy, cz) => Some (nx + cx * s, ny + cy * s, nz + cz * s)
             end in
@@ -85,10 +86,10 @@ Section Frame.
       let o := to_fx (at_idx (r_o ra)) in
       match inv_dist h o, inv_dist n c, inv_dist h c, inv_dist n o with
       | Some ho, Some nc, Some hc, Some no =>
-        let sgn := fun k => nth k ks_coupling_signs 0 in
-        let e := fst ks_coupling * (sgn 0%nat * ho + sgn 1%nat * nc + sgn 2%nat * hc + sgn 3%nat * no)
-                 / snd ks_coupling in
-        let floor := fst ks_energy_floor * SC / snd ks_energy_floor in
+        let sgn := fun k => nth k (c_ks_signs K) 0 in
+        let e := fst (c_ks_coupling K) * (sgn 0%nat * ho + sgn 1%nat * nc + sgn 2%nat * hc + sgn 3%nat * no)
+                 / snd (c_ks_coupling K) in
+        let floor := fst (c_ks_floor K) * SC / snd (c_ks_floor K) in
         Some (if e <? floor then floor else e)
       | _, _, _, _ => None
       end
@@ -121,6 +122,7 @@ Definition set_nth {A} (i : nat) (v : A) (l : list A) : list A :=
   firstn i l ++ match skipn i l with [] => [] | _ :: r => v :: r end.
 
 Record ks_params := mkKS {
+  ks_K : consts;
   ks_G : Z;
   ks_hv : hvariant;
   ks_ethr : Z;        (* energy threshold, fixed point (-0.5 +- guard) *)
@@ -173,7 +175,7 @@ Definition ks_loop (p : ks_params) (init : slots) (rs : list residue) (xyz : lis
 (* ks_assign_hydrogens once per frame, then the loop *)
 Definition kabsch_sander_frame (p : ks_params) (init : slots) (rs : list residue)
            (xyz : list vec) (oob : vec) : option (list slots) :=
-  ks_loop p init rs xyz (ks_energy_h (ks_G p) xyz oob (hydrogens (ks_G p) xyz oob (ks_hv p) rs) rs).
+  ks_loop p init rs xyz (ks_energy_h (ks_K p) (ks_G p) xyz oob (hydrogens (ks_K p) (ks_G p) xyz oob (ks_hv p) rs) rs).
 
 (* ----------------------------------------------------------------- observations for the correspondence *)
 (* per donor the list of (acceptor, energy) actually held, slot order *)
